@@ -252,7 +252,7 @@ def run(ctx):
         if ctx.quick:
             preps = spine_a(ctx, active, 32, 3, 12)
         else:
-            preps = spine_a(ctx, active, 420, 6, 60)
+            preps = spine_a(ctx, active, 300, 6, 50)
         ctx.log('spine A judged')
         c09_ir.run_units(ctx, preps, 4 if ctx.quick else 80)
         ctx.log('IR: generated functions vs Python codec and binary done')
